@@ -11,7 +11,9 @@ METHODS = ["GET", "HEAD", "OPTIONS", "POST", "PUT", "PATCH", "DELETE", "TRACE", 
 VARIANTS = ["plain", "override-header", "override-query", "dry-run-query", "dry-run-yes", "dry-run-only", "preview-only", "force-query", "trailing-slash", "double-slash"]
 
 
-def run(ctx):
+def serve(ctx):
+    """Extract the route table, let TLC enumerate the requests, serve them on the real router (read-only and
+    read-write), let RouterObs judge. Returns (tlc result, model_violation, stats, found, lines)."""
     binp = ctx.build("apiconf")
     routes = ctx.path("routes.ndjson")
     ctx.run([binp, "-mode", "routes", "-out", routes], timeout=300)
@@ -44,6 +46,34 @@ def run(ctx):
     verdict = o["output"].split("OBS-VERDICT", 1)[1].split("OBS-COUNTS")[0]
     found = [(m.group(1), int(m.group(2))) for m in re.finditer(r'<<"(\w+)", (\d+)>>', verdict)]
     lines = common.read_ndjson(res)
+    return g, model_violation, st, found, lines
+
+
+def preview_part(ctx):
+    """C14 at the HTTP boundary: the preview flag of each API version reaches the backend as DryRun."""
+    g, model_violation, st, found, lines = serve(ctx)
+    seen = set()
+    for inv, l in found:
+        if inv != "C14_PreviewFlagReachesBackend":
+            continue
+        r = lines[l - 1]
+        sig = "C14_PreviewFlagReachesBackend@%s %s %s [%s]" % (r["ver"], r["method"], r["pattern"], r["variant"])
+        if sig in seen:
+            continue
+        seen.add(sig)
+        ctx.violation(sig, "%s %s (%s) with its preview flag set to true (variant %s) reached the backend as a real write: %s" % (
+            r["method"], r["pattern"], r["ver"], r["variant"], r["rw"]),
+            {"kind": "c19-request", "case": {k: r[k] for k in ("ver", "pattern", "method", "variant", "expRO", "expRW")}})
+    flagged = [r for r in lines if not r["bulk"] and (r["variant"] == "dry-run-query" or (r["ver"] == "v2" and r["variant"] == "dry-run-only") or (r["ver"] == "v1" and r["variant"] == "preview-only"))]
+    dry = sum(1 for r in flagged if r["rw"]["dryWrites"] > 0)
+    if dry < 8:
+        raise Infra("vacuity guard: only %d flagged requests reached the backend as previews" % dry)
+    ctx.coverage["http_preview_part"] = {"requests_with_own_preview_flag": len(flagged), "reached_backend_as_preview": dry,
+                                         "rule": "every write route of both API versions x every method, with dryRun=true (v2) / preview=true (v1) alone and together; the bulk endpoints take no such flag and are left out"}
+
+
+def run(ctx):
+    g, model_violation, st, found, lines = serve(ctx)
     drift = 0
     for inv, l in found:
         r = lines[l - 1]
@@ -52,7 +82,7 @@ def run(ctx):
             ctx.violation(sig, "read-only router executed %s for %s %s (%s, variant %s), status %d" % (
                 r["ro"]["calls"], r["method"], r["pattern"], r["ver"], r["variant"], r["ro"]["status"]),
                 {"kind": "c19-request", "case": {k: r[k] for k in ("ver", "pattern", "method", "variant", "expRO", "expRW")}})
-        else:
+        elif inv.startswith("Conf_"):
             drift += 1
     if model_violation:
         ctx.notes.append("MODEL: the extracted route table violates %s (a mutating handler is registered under a method the middleware lets through)" % model_violation)
